@@ -236,7 +236,14 @@ fn run_tab_case(l: &[Val]) -> Val {
                 }
             }
             2 => {
-                let ch = t.end_deferral(f);
+                // end_deferral reports every destination; a change with an empty path
+                // list is a withdrawal, not an announcement, and is not part of the
+                // "held prefixes announced" observation of the deferral slice model
+                let ch: Vec<_> = t
+                    .end_deferral(f)
+                    .into_iter()
+                    .filter(|c| !c.current_paths.is_empty())
+                    .collect();
                 Val::L(vec![Val::n(2u8), changes_val(&ch)])
             }
             3 => {
